@@ -34,7 +34,7 @@ class Check(CheckBase):
 
     def generate(self):
         quick = self.tier == 'quick'
-        n = 64 if quick else 1500
+        n = 64 if quick else 4500
         cases = []
         for i in range(n):
             r = random.Random(f'C07/{self.seed}/{i}')
